@@ -9,7 +9,7 @@ from props import nncommon as nn
 RULE = ("cases = exhaustive universe (<=3 rows, every grouping of rows into units, every label vector over 2 classes, "
         "every weak order of distances incl. ties, 1 validation point [quick] / 2 points [thorough]) + random datasets "
         "(1-7 rows, 1-4 points, 1-4 classes with non-contiguous/negative labels, groupings: default / Provenance(data=ids) "
-        "/ ndarray ids / fork, ~35% with tied distances, generated utility tables and null vectors in {-4..4}/{1,2,4}) "
+        "/ ndarray ids / fork / a default provenance whose rows are reassigned in place, ~35% with tied distances, ~15% of the untied ones at magnitude 2^27, 3% with 257-300 validation points, 30% as the second fit of ONE object on the same feature array (first fit: rotated labels), generated utility tables and null vectors in {-4..4}/{1,2,4}) "
         "through ShapleyImportance('neighbor').fit(...).score(...) with an injected distance callable and table utility; "
         "plus the real accuracy utility with the default minkowski distance; non-trivial = at least two units receive "
         "different scores; distinct = distinct JSON of the case")
